@@ -36,8 +36,8 @@ pub fn spec_for(id: &str) -> Option<CheckSpec> {
   let spec = |property: &'static str, campaigns: Vec<Box<dyn Campaign>>, uses_r: bool| CheckSpec { property, level: "exploration", campaigns, assumptions: a_assumptions(uses_r), exhaustive_note: None };
   let b = |p: &'static str, s: SourceB, q: u64, t: u64| LoopCampaign::new(p, s, q, t);
   let bspec = |property: &'static str, campaigns: Vec<Box<dyn Campaign>>| CheckSpec { property, level: "exploration", campaigns, assumptions: b_assumptions(), exhaustive_note: None };
-  const QB: u64 = 400_000; const TB: u64 = 60_000_000;
-  const Q: u64 = 600_000; const QS: u64 = 200_000;
+  const QB: u64 = 800_000; const TB: u64 = 60_000_000;
+  const Q: u64 = 1_500_000; const QS: u64 = 400_000;
   const T: u64 = 120_000_000; const TS: u64 = 20_000_000;
   Some(match id {
     "C01" => spec("C01", vec![Box::new(k("C01", Source::Random, Q, T).resets()), Box::new(k("C01", Source::Shipped, QS, TS).resets())], false),
@@ -53,11 +53,11 @@ pub fn spec_for(id: &str) -> Option<CheckSpec> {
     "C10" => bspec("C10", vec![Box::new(b("C10", SourceB::Random, QB, TB)), Box::new(b("C10", SourceB::Shipped, QB / 4, TB / 4))]),
     "C11" => bspec("C11", vec![Box::new(b("C11", SourceB::Random, QB, TB).special()), Box::new(b("C11", SourceB::Shipped, QB / 4, TB / 4))]),
     "C12" => bspec("C12", vec![Box::new(b("C12", SourceB::Random, QB, TB).tablet()), Box::new(b("C12", SourceB::Shipped, QB / 4, TB / 4).tablet())]),
-    "C20" => { let mut s = bspec("C20", vec![Box::new(b("C20", SourceB::Random, 30_000, 3_000_000).sweep()), Box::new(b("C20", SourceB::Shipped, 8_000, 600_000).sweep())]); s.level = "fault_enumeration"; s }
-    "C18" => CheckSpec { property: "C18", level: "exploration", campaigns: vec![Box::new(WireCampaign::new(true, 0, 0)), Box::new(WireCampaign::new(false, 150_000, 20_000_000)), Box::new(b("C18", SourceB::Random, 30_000, 3_000_000).hybrid().tablet())],
+    "C20" => { let mut s = bspec("C20", vec![Box::new(b("C20", SourceB::Random, 40_000, 3_000_000).sweep()), Box::new(b("C20", SourceB::Shipped, 10_000, 600_000).sweep()), Box::new(b("C20", SourceB::Random, 10_000, 600_000).write_faults().tablet())]); s.level = "fault_enumeration"; s }
+    "C18" => CheckSpec { property: "C18", level: "exploration", campaigns: vec![Box::new(WireCampaign::new(true, 0, 0)), Box::new(WireCampaign::new(false, 400_000, 20_000_000)), Box::new(b("C18", SourceB::Random, 100_000, 3_000_000).hybrid().tablet())],
       assumptions: vec!["libc::input_event for this target (x86-64: 24 bytes) is the kernel's record layout".into(), "KeyCode discriminants are the kernel key numbers".into(), "an evdev node delivers whole records; EOF and short reads do not occur on it (device removal is ENODEV, injected in world B)".into(), "batches and interleavings are sampled; the sweep over all key codes x {press, release} is exhaustive".into()],
       exhaustive_note: Some("campaign wiresim-all-codes enumerates every key code the tool knows x {press, release, inside a batch}".into()) },
-    "C14" => CheckSpec { property: "C14", level: "exploration", campaigns: vec![Box::new(StoreCampaign::new(true, 0, 0)), Box::new(StoreCampaign::new(false, 250_000, 30_000_000))],
+    "C14" => CheckSpec { property: "C14", level: "exploration", campaigns: vec![Box::new(StoreCampaign::new(true, 0, 0)), Box::new(StoreCampaign::new(false, 400_000, 30_000_000))],
       assumptions: vec!["the byte-string quantifier is sampled from a grammar of valid and near-valid layout programs plus storage faults; only the truncation sweep over the shipped texts is exhaustive".into(), "a panic is observed as an unwind (catch_unwind); aborts cannot occur in this code (no allocation of attacker-chosen size)".into(), "'loading' is layout_loading::load_layout_from_file, the function main.rs and the systemd service use".into()],
       exhaustive_note: Some("campaign storesim-truncation-sweep enumerates every truncation offset of every shipped layout text".into()) },
     _ => return None,
